@@ -62,7 +62,11 @@ class FPFormat:
         """Non-differentiably quantise the given tensor in this format."""
         absmax = self.max_absolute_value
         downscale = 2.0 ** (127 - 2 ** (self.exponent_bits - 1))
-        mask = torch.tensor(2 ** (23 - self.mantissa_bits) - 1, device=x.device)
+        # (int32 like the bit pattern it is combined with: for a 0-d `x` a 0-d int64
+        # tensor would promote the pattern to int64)
+        mask = torch.tensor(
+            2 ** (23 - self.mantissa_bits) - 1, dtype=torch.int32, device=x.device
+        )
         if self.rounding == "stochastic":
             srbitsbar = 23 - self.mantissa_bits - self.srbits
             offset = (
